@@ -108,6 +108,13 @@ def gen(tier, rng):
         parts = list(ex.map(_gen_set, jobs))
     out = [c for part in parts for c in part]
     # committed corpus: specification-valid signatures with exactly omega hints (the accept side of the hint-count boundary)
+    er = os.path.join(os.path.dirname(CORPUS), "c03_empty_hint_row.json")
+    if os.path.exists(er):
+        seen2 = set()
+        for e in json.load(open(er)):
+            tags = ["in_domain", "boundary", "hint-free-polynomial", "corpus"] + (["crate-only"] if e["set"] in seen2 else [])
+            seen2.add(e["set"])
+            out.append(Case("verify", e["set"], [bytes.fromhex(e["sig"]), bytes.fromhex(e["msg"]), bytes.fromhex(e["pk"])], tags))
     if os.path.exists(CORPUS):
         seen = set()
         for e in json.load(open(CORPUS)):
@@ -238,12 +245,19 @@ def _gen_set(job):
         for kk in (0, 1, rng.randrange(2, p.m - 1), p.m - 1):
             a = kk * 2 * p.g2
             out.append(Case("use_hint", LEVEL_OF[cp], [a, 1], ["in_domain", "kernel-dependency"], aux=("usehint", pyref.use_hint(p, 1, a))))
+        # UseHint with a hint polynomial without any bit (valid, rare): it is HighBits of every coefficient
+        av = [rng.randrange(Q) for _ in range(256)]
+        out.append(Case("poly_use_hint", LEVEL_OF[cp], [av, [0] * 256], ["in_domain", "kernel-dependency"], aux=("highbits", [pyref.highbits(p, x) for x in av])))
         # the same through the API
         api = API_OF[cp]
         if p.mldsa:
             ss = pyref.sign(p, sk, bytes([0, 3]) + b"ctx" + m)
             out.append(Case("ml_verify", api, [pk, m, ss, b"ctx"], ["in_domain", "api", "crate-only"], aux=(bytes([0, 3]) + b"ctx" + m,)))
             out.append(Case("ml_verify", api, [pk, m, ss, b"ctX"], ["in_domain", "api", "crate-only"], aux=(bytes([0, 3]) + b"ctX" + m,)))
+            for n in (256, 300):   # a context longer than 255 bytes is invalid whatever the signature is: also one valid for the wrapped framing
+                lc = bytes(rng.randrange(256) for _ in range(n))
+                sw = pyref.sign(p, sk, bytes([0, n % 256]) + lc + m)
+                out.append(Case("ml_verify", api, [pk, m, sw, lc], ["in_domain", "api", "ctx-too-long", "crate-only"], aux=None))
         else:
             out.append(Case("api_verify", api, [pk, m, s], ["in_domain", "api", "crate-only"], aux=(m,)))
             out.append(Case("api_verify", api, [pk, m, s[:-1]], ["in_domain", "api", "crate-only"], aux=(m,)))
@@ -255,10 +269,14 @@ def nontrivial(c, out):
 
 
 def oracle(c, outs):
+    if c.fn == "poly_use_hint":
+        return None if outs[0] == c.aux[1] else "poly_use_hint with an all-zero hint polynomial is not HighBits of the coefficients"
     if c.fn == "use_hint":
         return None if outs[0] == c.aux[1] else "use_hint(%s, 1) = %d, the specification's UseHint gives %d (tie r0 = 0)" % (c.args[0], outs[0], c.aux[1])
     if c.fn == "l_chknorm":
         return None if outs[0] == c.aux[1] else "l_chknorm at the verifier's bound gamma1-beta returned %d, expected %d (the z gate is not exact)" % (outs[0], c.aux[1])
+    if c.fn == "ml_verify" and c.aux is None:
+        return None if outs[0] == 0 else "ml_verify/%s accepts under a context longer than 255 bytes" % c.copy
     cp = c.copy
     for k, v in API_OF.items():
         if v == cp and c.fn in ("ml_verify", "api_verify"):
